@@ -461,12 +461,19 @@ class Check:
                 continue
             hres = {"name": h["name"], "pkg": h["pkg"]}
             per_h.append(hres)
+            n = h["n"].get(self.tier, 0)
+            if n == 0 and not replay:
+                per_h.pop()          # e.g. -race harnesses only in the thorough tier
+                continue
             ok, binp, out = build_harness(self.pid, h)
             if not ok:
                 self.broken.append({"kind": "correspondence", "name": "harness %s does not build against the working tree" % h["name"], "detail": out[-2500:]})
                 hres["built"] = False
                 continue
-            n = int(os.environ.get("VERIF_N_OVERRIDE", 0)) or h["n"][self.tier]
+            if os.environ.get("VERIF_N_OVERRIDE"):
+                n = int(os.environ["VERIF_N_OVERRIDE"])
+            elif getattr(self, "search_factor", 1) > 1 and not h.get("no_search"):
+                n = n * self.search_factor
             tmo = h.get("timeout_s", {}).get(self.tier, 900)
             base = os.path.join(BUILD, "run_%s_%s" % (self.pid, h["name"]))
             case_files = []
@@ -511,6 +518,8 @@ class Check:
                         self.broken.append({"kind": "correspondence", "name": "harness %s exited with %s" % (h["name"], p.returncode), "detail": (o or "")[-2500:]})
                     if os.path.exists(outp):
                         case_files.append(outp)
+                    elif p.returncode == 0:
+                        self.broken.append({"kind": "correspondence", "name": "harness %s: worker output %s is missing" % (h["name"], os.path.basename(outp)), "detail": (o or "")[-800:]})
             # judge
             fails, disagree = [], []
             hres.update({"evaluations": 0, "agree": 0, "spec_ok": 0})
@@ -693,7 +702,7 @@ def main(argv):
     if ck.broken and not ck.violations and not replay and a.tier == "quick" and not os.environ.get("VERIF_NO_SEARCH"):
         # search: widen the generator run before giving up on a concrete failing input
         log("obligation/correspondence broken; searching for a failing input with a wider run")
-        os.environ["VERIF_N_OVERRIDE"] = str(max(h["n"]["quick"] * 5 for h in ck.cfg.get("harness", [{"n": {"quick": 0}}])))
+        ck.search_factor = 5
         saved = ck.broken
         ck.broken = []
         ck.seed += 7919
